@@ -88,6 +88,16 @@ VARIANTS = [
 ]
 
 
+LONG_VARIANTS = [
+    ("light axioms", dict(axioms="light"), "z3", 40),
+    ("focus, sequences abstracted", dict(axioms="light", focus=True, seq="abstract"), "z3", 30),
+    ("ground-defs, products abstracted", dict(defs="ground", fuel=None, nl="abstract"), "cvc5", 40),
+    ("light axioms", dict(axioms="light"), "cvc5", 60),
+    ("full", dict(), "z3", 60),
+    ("full", dict(), "cvc5", 60),
+]
+
+
 def discharge(engine: Engine, reports, schedule=None, both=False, workers=16):
     """Staged portfolio: every stage is one variant of the VC tried on all still-open obligations in parallel."""
     obs = [o for r in reports for o in r.obligations]
@@ -158,6 +168,29 @@ def discharge(engine: Engine, reports, schedule=None, both=False, workers=16):
 
             list(ex.map(step, open_obs))
             open_obs = [o for o in open_obs if not o.ok and not (o.result is not None and o.result.status == "sat")]
+        if 0 < len(open_obs) <= 6:
+            # a few obligations left: long budgets (many open ones mean a changed function, not a hard proof)
+            for label, kw, sv, to in LONG_VARIANTS:
+                if not open_obs:
+                    break
+
+                def step2(o, label=label, kw=kw, sv=sv, to=to):
+                    res = run_variant(o, label, kw, sv, to)
+                    if res is None:
+                        return o
+                    o.attempts_all += [(f"{a[0]}[{label}, long]", a[1], a[2]) for a in res.attempts]
+                    if res.status == "unsat":
+                        res.solver = f"{sv}({label})[long budget]"
+                        res.attempts = list(o.attempts_all)
+                        res.time_s = sum(a[2] for a in o.attempts_all)
+                        o.result, o.ok = res, True
+                    elif res.status == "sat" and label == "full":
+                        res.attempts = list(o.attempts_all)
+                        o.result = res
+                    return o
+
+                list(ex.map(step2, open_obs))
+                open_obs = [o for o in open_obs if not o.ok and not (o.result is not None and o.result.status == "sat")]
         for o in proof_obs:
             if o.result is None:
                 o.result = solver.Result("unknown", "-", sum(a[2] for a in o.attempts_all), "", list(o.attempts_all))
